@@ -74,6 +74,13 @@ def gen(seed, tier="quick"):
         call = scn["calls"][0]
         i = r.randrange(0, max(1, min(scn["cfg"]["max_attempts"], len(call["attempts"]))))
         call["attempts"][i] = {"kind": "base", "exc": r.choice(["KeyboardInterrupt", "SystemExit", "CancelledError"]), "dur": call["attempts"][i].get("dur", 0)}
+    if r.random() < 0.08:
+        # "the same behaviour of the ... callbacks": the caller's own strategy or sleeper raises at its
+        # i-th invocation (classifier call counts legitimately differ between entry points, so classifiers are left
+        # out); every entry point must do the same work up to that point and let the same error out
+        call = scn["calls"][0]
+        call["faults"] = [{"site": r.choice(["strategy", "strategy", "sleeper"]), "at": r.randrange(0, 3),
+                           "exc": r.choice(["ValueError", "RuntimeError", "KeyError", "Custom"]), "kind": "callback_raise"}]
     if r.random() < 0.4:
         scn["cfg"]["breaker"] = {"kind": "real", "failure_threshold": r.choice([1, 2, 3]), "window_us": 60_000_000,
                                  "recovery_us": r.choice([1_000_000, 30_000_000])}
@@ -196,7 +203,7 @@ def execute(scn):
                           {"entry": name, "index": k, "reference": a[k] if k < len(a) else None, "got": b[k] if k < len(b) else None}))
         if key[2] == "execute":
             for cid, cf in calls_by_key[key].items():
-                if cf.end is not None and cf.end["how"] == "raise" and not str(cf.end["exc"].get("obj") or "").startswith(("N", "B")):
+                if cf.end is not None and cf.end["how"] == "raise" and not str(cf.end["exc"].get("obj") or "").startswith(("N", "B", "F")):
                     viol.append(V("R2", f"{key[1]}.execute ({key[0]}) raised instead of returning a RetryOutcome",
                                   {"entry": name, "exc": cf.end["exc"]}))
         if facts != group_ref[2]:
